@@ -57,9 +57,15 @@
 (***************************************************************************)
 EXTENDS Naturals, Sequences, FiniteSets, TLC
 
-Mk(f) == f \o <<>>                      \* force a concrete tuple (TLC keeps [x \in S |-> e] lazy)
+Mk(fn) == fn \o <<>>                      \* force a concrete tuple (TLC keeps [x \in S |-> e] lazy)
 Range(s) == {s[k] : k \in 1..Len(s)}
 MinOf(S) == CHOOSE x \in S : \A y \in S : x <= y
+Pick(S) == CHOOSE x \in S : TRUE
+(* TLC passes operator arguments and LET definitions unevaluated and may evaluate them again at every  *)
+(* use.  Heavy values are therefore bound with  Pick({ F(x) : x \in {e} }) : e is evaluated once and   *)
+(* x stands for its value.  (Parameters here are never called `f', `pc', `cur', `holds', `chunk': a      *)
+(* parameter that shares its name with a VARIABLE of the extending module makes TLC treat the           *)
+(* definition as state-level and silently stops caching constant tables.)                               *)
 V(fn, x) == IF x \in DOMAIN fn THEN fn[x] ELSE 0       \* 0 = undefined / junk
 Big == 1000000                                           \* identities of fresh definitions: Big + k
 
@@ -83,7 +89,7 @@ DescOf(A, p, fuel) == IF fuel = 0 THEN {}
                            IN s \cup UNION {DescOf(A, q, fuel - 1) : q \in s}
 DescTab(A) == Mk([p \in 1..A.np |-> DescOf(A, p, 6)])
 OvFrom(A, dt) == Mk([p \in 1..A.np |-> {p} \cup dt[p] \cup {q \in 1..A.np : p \in dt[q]}])
-OvOf(A) == OvFrom(A, DescTab(A))
+OvOf(A) == Pick({OvFrom(A, dt) : dt \in {DescTab(A)}})
 \* overlap set of a location: machine registers by the table, anything else only itself
 OvL(ov, l) == IF l >= 1 /\ l <= Len(ov) THEN ov[l] ELSE {l}
 
@@ -97,8 +103,8 @@ OvL(ov, l) == IF l >= 1 /\ l <= Len(ov) THEN ov[l] ELSE {l}
 RECURSIVE SIdxFrom(_, _, _, _)
 SIdxFrom(S, n, k, acc) ==           \* acc[i] = index in S of the entry with id i (0 = none)
     IF k > Len(S) THEN acc
-    ELSE LET i == Id(S[k]) IN
-         SIdxFrom(S, n, k + 1, IF i >= 1 /\ i <= n THEN [acc EXCEPT ![i] = k] ELSE acc)
+    ELSE Pick({SIdxFrom(S, n, k + 1, a2) :
+               a2 \in {IF Id(S[k]) >= 1 /\ Id(S[k]) <= n THEN [acc EXCEPT ![Id(S[k])] = k] ELSE acc}})
 SIdx(c, n) == SIdxFrom(c.S, n, 1, Mk([i \in 1..n |-> 0]))
 
 \* S must be a sub-list of W: ids inside 1..n and strictly increasing
@@ -154,11 +160,12 @@ Entry(c, ov, n, sidx, i) ==
 (* the least fixed point):  in[i] = use[i] \cup (out[i] \ def[i]),          *)
 (* out[i] = UNION in[s], s successor of i;  in[n+1] = {}.                   *)
 RECURSIVE Sweep(_, _, _)
-Sweep(T, live, i) == IF i = 0 THEN live
-                     ELSE LET out == UNION {live[s] : s \in T[i].succ}
-                          IN Sweep(T, [live EXCEPT ![i] = T[i].use \cup (out \ T[i].def)], i - 1)
+Sweep(T, live, i) ==
+    IF i = 0 THEN live
+    ELSE Pick({Sweep(T, nl, i - 1) :
+               nl \in {[live EXCEPT ![i] = T[i].use \cup (UNION {live[s] : s \in T[i].succ} \ T[i].def)]}})
 RECURSIVE LiveFix(_, _, _)
-LiveFix(T, n, live) == LET nl == Sweep(T, live, n) IN IF nl = live THEN live ELSE LiveFix(T, n, nl)
+LiveFix(T, n, live) == Pick({IF nl = live THEN live ELSE LiveFix(T, n, nl) : nl \in {Sweep(T, live, n)}})
 LiveIn(T, n) == LiveFix(T, n, Mk([i \in 1..(n + 1) |-> {}]))
 
 BuildT(c, ov, n, sidx) == Mk([i \in 1..n |-> Entry(c, ov, n, sidx, i)])
@@ -176,55 +183,57 @@ BuildP(c, ov, n, T) ==
                    THEN /\ c.pre = Mk([i \in 1..n |-> i])
                         /\ c.post = Mk([k \in 1..Len(c.S) |-> Id(c.S[k])])
                    ELSE TRUE]
-Build(c, ov) == LET n == Len(c.W) IN BuildP(c, ov, n, BuildT(c, ov, n, SIdx(c, n)))
+Build(c, ov) ==
+    Pick({BuildP(c, ov, Len(c.W), T) :
+          T \in {Pick({BuildT(c, ov, Len(c.W), sidx) : sidx \in {SIdx(c, Len(c.W))}})}})
 
 ---------------------------------------------------------------------------
 (* The lock-step machine.  P is a table built above, i a position of W.    *)
 
 \* value written by definition number k of entry e
-DefVal(e, cur, holds, k) ==
+DefVal(e, cu, ho, k) ==
     IF e.move /\ k = 1 /\ Len(e.su) >= 1
-    THEN (IF V(cur, e.su[1]) # 0 THEN V(cur, e.su[1])
-          ELSE IF Len(e.mu) >= 1 /\ V(holds, e.mu[1]) # 0 THEN V(holds, e.mu[1])   \* copies whatever is there
+    THEN (IF V(cu, e.su[1]) # 0 THEN V(cu, e.su[1])
+          ELSE IF Len(e.mu) >= 1 /\ V(ho, e.mu[1]) # 0 THEN V(ho, e.mu[1])   \* copies whatever is there
           ELSE Big)                                                              \* ... an unknown content
     ELSE Big + k
 LastDef(seq, x) == CHOOSE k \in 1..Len(seq) : seq[k] = x /\ \A m \in (k + 1)..Len(seq) : seq[m] # x
 
 \* ground truth after executing entry e
-CurAfter(P, e, cur, holds) ==
+CurAfter(P, e, cu, ho) ==
     LET defs == Range(e.sd)
         kill == UNION {OvL(P.ov, c) : c \in e.clob}
                 \cup UNION {OvL(P.ov, d) \ {d} : d \in defs}
-    IN [r \in (DOMAIN cur \ kill) \cup defs |->
-          IF r \in defs THEN DefVal(e, cur, holds, LastDef(e.sd, r)) ELSE cur[r]]
+    IN [r \in (DOMAIN cu \ kill) \cup defs |->
+          IF r \in defs THEN DefVal(e, cu, ho, LastDef(e.sd, r)) ELSE cu[r]]
 
 \* a move from a name without value copies the present content of its location: give that
 \* content an identity if it has none
-Materialise(e, cur, holds) ==
-    IF e.move /\ Len(e.su) >= 1 /\ Len(e.mu) >= 1 /\ V(cur, e.su[1]) = 0 /\ V(holds, e.mu[1]) = 0 /\ e.mu[1] # 0
-    THEN [l \in DOMAIN holds \cup {e.mu[1]} |-> IF l = e.mu[1] THEN Big ELSE holds[l]]
-    ELSE holds
+Materialise(e, cu, ho) ==
+    IF e.move /\ Len(e.su) >= 1 /\ Len(e.mu) >= 1 /\ V(cu, e.su[1]) = 0 /\ V(ho, e.mu[1]) = 0 /\ e.mu[1] # 0
+    THEN [l \in DOMAIN ho \cup {e.mu[1]} |-> IF l = e.mu[1] THEN Big ELSE ho[l]]
+    ELSE ho
 
 \* implementation state after executing entry e (kind "both")
-HoldsAfter(P, e, cur, holds) ==
-    LET h0 == Materialise(e, cur, holds)
+HoldsAfter(P, e, cu, ho) ==
+    LET h0 == Materialise(e, cu, ho)
         defs == Range(e.md) \ {0}
         kill == UNION {OvL(P.ov, c) : c \in e.clob}
                 \cup UNION {OvL(P.ov, l) \ {l} : l \in defs}
     IN [l \in (DOMAIN h0 \ kill) \cup defs |->
-          IF l \in defs THEN DefVal(e, cur, holds, LastDef(e.md, l)) ELSE h0[l]]
+          IF l \in defs THEN DefVal(e, cu, ho, LastDef(e.md, l)) ELSE h0[l]]
 
 \* a recorded spill block starting at entry e: one atomic transfer
-BlockHolds(P, e, holds) ==
+BlockHolds(P, e, ho) ==
     LET B == P.slots[e.blk]
         reg == B[2]
         slot == P.nn + B[3]
         kill == UNION {OvL(P.ov, l) : l \in e.blkDefs}
     IN IF B[1] = 1
-       THEN [l \in (DOMAIN holds \ kill) \cup (IF V(holds, slot) # 0 THEN {reg} ELSE {}) |->
-               IF l = reg THEN holds[slot] ELSE holds[l]]
-       ELSE [l \in ((DOMAIN holds \ kill) \ {slot}) \cup (IF V(holds, reg) # 0 THEN {slot} ELSE {}) |->
-               IF l = slot THEN holds[reg] ELSE holds[l]]
+       THEN [l \in (DOMAIN ho \ kill) \cup (IF V(ho, slot) # 0 THEN {reg} ELSE {}) |->
+               IF l = reg THEN ho[slot] ELSE ho[l]]
+       ELSE [l \in ((DOMAIN ho \ kill) \ {slot}) \cup (IF V(ho, reg) # 0 THEN {slot} ELSE {}) |->
+               IF l = slot THEN ho[reg] ELSE ho[l]]
 
 \* normal form of a state entering position j
 Norm(P, j, c1, h1) ==
@@ -235,28 +244,28 @@ Norm(P, j, c1, h1) ==
     IN [cur |-> [r \in live |-> rep[c1[r]]],
         holds |-> [l \in {x \in DOMAIN h1 : h1[x] \in vals} |-> rep[h1[l]]]]
 
-ExecTo(P, i, j, cur, holds) ==        \* an instruction present in both programs
-    LET e == P.T[i] IN Norm(P, j, CurAfter(P, e, cur, holds), HoldsAfter(P, e, cur, holds))
-RemovedTo(P, i, j, cur, holds) ==     \* specification only: a coalesced move that was deleted
-    LET e == P.T[i] IN Norm(P, j, CurAfter(P, e, cur, holds), Materialise(e, cur, holds))
-BlockTo(P, i, cur, holds) ==          \* implementation only: a load / store block
-    LET e == P.T[i] IN Norm(P, i + e.blkLen, cur, BlockHolds(P, e, holds))
+ExecTo(P, i, j, cu, ho) ==        \* an instruction present in both programs
+    LET e == P.T[i] IN Norm(P, j, CurAfter(P, e, cu, ho), HoldsAfter(P, e, cu, ho))
+RemovedTo(P, i, j, cu, ho) ==     \* specification only: a coalesced move that was deleted
+    LET e == P.T[i] IN Norm(P, j, CurAfter(P, e, cu, ho), Materialise(e, cu, ho))
+BlockTo(P, i, cu, ho) ==          \* implementation only: a load / store block
+    LET e == P.T[i] IN Norm(P, i + e.blkLen, cu, BlockHolds(P, e, ho))
 
 ---------------------------------------------------------------------------
 (* The clauses of the property, as state predicates.                       *)
 
 \* sentence 1: each read sees the most recent definition, on this path
-ReadsOK(P, i, cur, holds) ==
+ReadsOK(P, i, cu, ho) ==
     LET e == P.T[i] IN
     e.kind = "both" =>
       \A k \in 1..Len(e.su) :
-         V(cur, e.su[k]) # 0 => (k <= Len(e.mu) /\ e.mu[k] # 0 /\ V(holds, e.mu[k]) = cur[e.su[k]])
+         V(cu, e.su[k]) # 0 => (k <= Len(e.mu) /\ e.mu[k] # 0 /\ V(ho, e.mu[k]) = cu[e.su[k]])
 
 \* sentence 2: two live values share (aliasing) registers only if they are copies
-NoShare(P, cur) ==
+NoShare(P, cu) ==
     P.mode = "colour" =>
-      \A a \in DOMAIN cur : \A b \in DOMAIN cur :
-         (a < b /\ cur[a] # cur[b]) => P.loc[b] \notin OvL(P.ov, P.loc[a])
+      \A a \in DOMAIN cu : \A b \in DOMAIN cu :
+         (a < b /\ cu[a] # cu[b]) => P.loc[b] \notin OvL(P.ov, P.loc[a])
 
 \* deleting an instruction is legal only for a move within one location
 RemovedOK(P, i) ==
